@@ -16,6 +16,7 @@
       the run (so both results above apply to it). *)
 From BB Require Import Base TM Ref TapeModel InstrsModel RulesModel MachineModel ProverModel ReplayModel.
 From BB Require Import TapeCanon StepSim RulesExact RuleSound ReplaySound ProverSound.
+From BB Require Import SymRule SymRuleSound.
 Open Scope N_scope.
 
 (** the accelerated application is a run of real machine steps *)
@@ -153,3 +154,144 @@ Proof.
   - exact (C03_trace_replayed_apps_real _ _ _ _ _ H Hrp).
 Qed.
 Print Assumptions C03_test_machine_apps_real.
+
+
+(** ------------------------------------------------------------------ *)
+(** ESTABLISHING [RuleValid]: the verified SYMBOLIC rule checker
+    (Model/SymRule.v, Proofs/SymRuleSound.v).  [check_rule] runs the compressed
+    simulator on a tape whose block counts are unknowns and answers a
+    requirement vector [req]; the rule is then a run of real machine steps on
+    EVERY tape of the family (same colours; blocks not in the mask pinned to
+    their counts in [t0]) whose counts are >= [req]. *)
+Theorem C03_check_rule_sound : forall comp q t0 r m cycles restarts n req,
+  check_rule comp q t0 r m cycles restarts = CCert n req ->
+  forall t t1, canon_tape t -> same_shape t t0 -> lens_eq t t0 ->
+    fixed_ok m t t0 -> req_ok req t -> Shifted r 1 t t1 ->
+    exists k z, (1 <= k)%nat /\
+      tm_steps (to_prog comp) k (q, unroll_tape t) = Some (q, z) /\
+      tape_eq z (unroll_tape t1).
+Proof. exact check_rule_sound. Qed.
+Print Assumptions C03_check_rule_sound.
+
+(** a certificate whose requirement is within the guard of rules.rs
+    (decreasing blocks > |d|, every block >= 1) gives [RuleValid] ... *)
+Theorem C03_check_rule_valid : forall comp q r t0 cycles restarts n req,
+  check_rule comp q t0 r mask_all cycles restarts = CCert n req ->
+  req_le_guard r t0 req = true ->
+  RuleValid (to_prog comp) q r t0.
+Proof. exact check_rule_guard_valid. Qed.
+Print Assumptions C03_check_rule_valid.
+
+(** ... and so does the complete check [cover], which splits the tapes between
+    the guard and the requirement into finitely many cases (typically the last
+    application of a bulk application, which leaves a block of one cell) *)
+Theorem C03_cover_rule_valid : forall comp q r t0 cycles restarts fuel,
+  cover comp q r cycles restarts (guard_bounds 1 mask_all r t0) fuel mask_all t0 = true ->
+  RuleValid (to_prog comp) q r t0.
+Proof. exact cover_rule_valid. Qed.
+Print Assumptions C03_cover_rule_valid.
+
+(** hence the bulk application is a run of the real machine FOR ALL COUNTS *)
+Theorem C03_cover_apply_sound : forall comp q r t0 cycles restarts fuel t times t',
+  cover comp q r cycles restarts (guard_bounds 1 mask_all r t0) fuel mask_all t0 = true ->
+  canon_tape t -> same_shape t t0 -> rule_keys_nodup r ->
+  apply_rule t r = Ok (Some times, t') ->
+  exists n z, (N.to_nat times <= n)%nat /\
+    tm_steps (to_prog comp) n (q, unroll_tape t) = Some (q, z) /\
+    tape_eq z (unroll_tape t') /\ canon_tape t'.
+Proof. exact cover_apply_sound. Qed.
+Print Assumptions C03_cover_apply_sound.
+
+(** a certificate valid only above [req] still covers the bulk applications
+    all of whose intermediate tapes are above [req]: decidable condition
+    [app_covered] on (tape before, times) *)
+Theorem C03_apply_sound_above : forall comp q t0 r m cycles restarts n req t times t',
+  check_rule comp q t0 r m cycles restarts = CCert n req ->
+  app_covered m req t0 t r times = true ->
+  canon_tape t -> same_shape t t0 -> rule_keys_nodup r ->
+  apply_rule t r = Ok (Some times, t') ->
+  exists k z, (N.to_nat times <= k)%nat /\
+    tm_steps (to_prog comp) k (q, unroll_tape t) = Some (q, z) /\
+    tape_eq z (unroll_tape t') /\ canon_tape t'.
+Proof. exact apply_sound_above. Qed.
+Print Assumptions C03_apply_sound_above.
+
+(** splitting a bulk application at the threshold: the certificate takes the
+    run from [t] through the first K = [max_covered ..] single applications
+    (those that start above [req]) to the tape t + K.r; the remaining
+    [times - K] single applications start below the threshold and are left to
+    the concrete replay checker ([C03_replay_sound]) *)
+Theorem C03_apply_split_above : forall comp q t0 r m cycles restarts n req t times t',
+  check_rule comp q t0 r m cycles restarts = CCert n req ->
+  canon_tape t -> same_shape t t0 -> rule_keys_nodup r ->
+  apply_rule t r = Ok (Some times, t') ->
+  let K := max_covered m req t0 t r times in
+  exists k z, (N.to_nat K <= k)%nat /\
+    tm_steps (to_prog comp) k (q, unroll_tape t) = Some (q, z) /\
+    tape_eq z (unroll_tape (shift_tape_N r K t)) /\
+    canon_tape (shift_tape_N r K t) /\
+    Shifted r (N.to_nat K) t (shift_tape_N r K t).
+Proof. exact apply_split_above. Qed.
+Print Assumptions C03_apply_split_above.
+
+(** the tapes run_prover applies a rule to have the SIGNATURE of the tape the
+    rule was made on (which blocks have exactly one cell): with those blocks
+    pinned and the others >= 2, the complete check [cover_sig] proves the bulk
+    application on every canonical tape of that signature *)
+Theorem C03_cover_sig_apply_sound : forall comp q r cycles restarts fuel t0,
+  cover_sig comp q r cycles restarts fuel t0 = true ->
+  forall t times t', canon_tape t -> tape_sig t = tape_sig t0 -> rule_keys_nodup r ->
+  apply_rule t r = Ok (Some times, t') ->
+  exists n z, (N.to_nat times <= n)%nat /\
+    tm_steps (to_prog comp) n (q, unroll_tape t) = Some (q, z) /\
+    tape_eq z (unroll_tape t') /\ canon_tape t'.
+Proof. exact cover_sig_apply_sound. Qed.
+Print Assumptions C03_cover_sig_apply_sound.
+
+(** the hypothesis [apps_valid] of [C03_trace_valid_apps_real] (and of the
+    C02 verdict theorems) is decidable-by-certificate *)
+Theorem C03_apps_certified_valid : forall comp cycles restarts fuel apps,
+  apps_certified comp cycles restarts fuel apps = true -> apps_valid (to_prog comp) apps.
+Proof. exact apps_certified_valid. Qed.
+Print Assumptions C03_apps_certified_valid.
+
+(** non-vacuity 3: the rule "left block -3, right block +5" of the repo's test
+    machine is CERTIFIED: 12 cycles per application, for every tape
+    3^a 1^b [3] 2^c with a >= 4, c >= 2; the case c = 1 by a second
+    certificate; hence [RuleValid], for all counts. *)
+Definition C03_test_rule : rule := [((false, 0), Plus (-3)%Z); ((true, 0), Plus 5%Z)].
+Definition C03_test_tape : tape := mkTape 3 [(3, 19); (1, 1)] [(2, 22)].
+
+Example C03_test_rule_certified :
+  check_rule C03_test_machine 0 C03_test_tape C03_test_rule mask_all 100 16 = CCert 12 ([4; 1], [2]) /\
+  cover C03_test_machine 0 C03_test_rule 100 16
+        (guard_bounds 1 mask_all C03_test_rule C03_test_tape) 4 mask_all C03_test_tape = true.
+Proof. vm_compute. split; reflexivity. Qed.
+
+Example C03_test_rule_valid : RuleValid (to_prog C03_test_machine) 0 C03_test_rule C03_test_tape.
+Proof. exact (C03_cover_rule_valid _ _ _ _ _ _ _ (proj2 C03_test_rule_certified)). Qed.
+Print Assumptions C03_test_rule_valid.
+
+(** all 8 applications recorded in 1000 cycles are applications of certified
+    rules: [apps_valid] holds, so [C03_trace_valid_apps_real] applies with no
+    hypothesis left (at least [times] real steps each, no halt, no spin-out) *)
+Example C03_test_machine_apps_certified :
+  match run_prover_trace C03_test_machine 1000 with
+  | Ok (_, apps) => apps_certified C03_test_machine 100 16 4 apps = true
+  | Panic => False
+  end.
+Proof. vm_compute. reflexivity. Qed.
+
+Example C03_test_machine_apps_valid_real :
+  forall r apps, run_prover_trace C03_test_machine 1000 = Ok (r, apps) ->
+  forall a, In a apps ->
+    exists n z, (N.to_nat (app_times a) <= n)%nat /\
+      tm_steps (to_prog C03_test_machine) n (app_state a, unroll_tape (app_before a)) = Some (app_state a, z) /\
+      tape_eq z (unroll_tape (app_after a)) /\ canon_tape (app_after a).
+Proof.
+  intros r apps H a Ha. pose proof C03_test_machine_apps_certified as E. rewrite H in E.
+  destruct (C03_trace_valid_apps_real _ _ _ _ H (C03_apps_certified_valid _ _ _ _ _ E) a Ha)
+    as (n & z & A & B & C & D & _).
+  exists n, z. auto.
+Qed.
+Print Assumptions C03_test_machine_apps_valid_real.
